@@ -943,6 +943,7 @@ pub fn gen_world(opts: &WorldOpts) -> World {
     // exception
     let mut crashing = None;
     let mut flip_stack: Option<u64> = None;
+    let mut crash_in_region0 = false;
     let mut exception_ctx_of: Option<u32> = None;
     if chance("dump.exception", 3, 4) {
         let t = &threads[ch("dump.exception.thread", threads.len() as u32) as usize];
@@ -975,8 +976,11 @@ pub fn gen_world(opts: &WorldOpts) -> World {
             }
         };
         ex.exception_record.exception_address = addr;
-        ex.exception_record.number_parameters = ch("dump.exc.nparams", if adv { 16 } else { 3 });
-        ex.exception_record.exception_information[0] = ch("dump.exc.info0", 9) as u64;
+        // (an access violation mostly comes with its two parameters and a real access type, so
+        // that the analyses which compare the access with the memory map have something to do)
+        ex.exception_record.number_parameters = if adv { ch("dump.exc.nparams", 16) } else { [2u32, 2, 2, 0, 1][ch("dump.exc.nparams", 5) as usize] };
+        ex.exception_record.exception_information[0] = [0u64, 1, 8, 0, 1, 8, 2, 3, 7][ch("dump.exc.info0", 9) as usize];
+        crash_in_region0 = addr == 0x80400;
         ex.exception_record.exception_information[1] = addr;
         ex.exception_record.exception_information[2] = 0xC000_0005;
         synth = synth.add_exception(ex);
@@ -1093,7 +1097,7 @@ pub fn gen_world(opts: &WorldOpts) -> World {
         }
         synth = synth.add_stream(misc);
     }
-    if streams & 8 != 0 || flip_stack.is_some() {
+    if streams & 8 != 0 || flip_stack.is_some() || crash_in_region0 {
         // memory info list, with extreme ranges when adversarial
         let regions: [(u64, u64, u32); 9] = [
             (0x80000, 0x80000, 0x04),
@@ -1110,7 +1114,20 @@ pub fn gen_world(opts: &WorldOpts) -> World {
             if i >= 2 && !(adv && chance("dump.meminfo.extreme", 1, 2)) {
                 continue;
             }
+            // now and then a region is described twice, with the same range and different
+            // attributes (committed and accessible / free and inaccessible), in either order:
+            // whichever description the reader keeps must not depend on anything but the file
+            let twin = i < 2 && chance("dump.meminfo.twin", if (i == 1 && flip_stack.is_some()) || (i == 0 && crash_in_region0) { 2 } else { 1 }, 3);
+            let twin_first = twin && chance("dump.meminfo.twin_first", 1, 2);
+            if twin && twin_first {
+                probe("e4.meminfo_twin");
+                synth = synth.add_memory_info(MemoryInfo::new(e, *base, *base, 0x01, *size, 0x10000, 0x01, 0));
+            }
             synth = synth.add_memory_info(MemoryInfo::new(e, *base, *base, *prot, *size, 0x1000, *prot, 0x20000));
+            if twin && !twin_first {
+                probe("e4.meminfo_twin");
+                synth = synth.add_memory_info(MemoryInfo::new(e, *base, *base, 0x01, *size, 0x10000, 0x01, 0));
+            }
         }
     }
     if streams & 16 != 0 && os == OsKind::Windows && chance("dump.handles.v2", 1, 2) {
@@ -1206,6 +1223,9 @@ pub fn gen_world(opts: &WorldOpts) -> World {
     if let Some(c) = csd {
         patch_csd_version(&mut dump, c);
     }
+    if adv && chance("dump.tail_string", 1, 6) {
+        tail_string(&mut dump);
+    }
     if os == OsKind::Windows && chance("dump.teb", 1, 2) {
         // thread environment blocks: inside the thread's own stack, at its very end, or far off
         let tebs: Vec<u64> = threads
@@ -1256,9 +1276,25 @@ pub fn storage_fault(dump: &mut Vec<u8>) -> &'static str {
     if dump.is_empty() {
         return "none";
     }
-    match ch("storage.kind", 5) {
+    match ch("storage.kind", 8) {
+        5..=7 => {
+            // structure-aware rot: a 32-bit field of the header, of a directory entry or of
+            // the first words of a stream (counts, entry sizes, RVAs live there) takes a
+            // boundary value
+            let n = 1 + ch("storage.field.n", 2);
+            for _ in 0..n {
+                field_rot(dump);
+            }
+            "field rot"
+        }
         0 => {
-            let k = range("storage.torn_at", 0, dump.len() as u64) as usize;
+            // anywhere, or just a few bytes short: the records written last (strings, the last
+            // stream) then end 1-8 bytes past the end of the file
+            let k = if chance("storage.torn_short", 1, 2) {
+                dump.len().saturating_sub(1 + ch("storage.torn_by", 8) as usize)
+            } else {
+                range("storage.torn_at", 0, dump.len() as u64) as usize
+            };
             dump.truncate(k);
             "torn tail"
         }
@@ -1297,6 +1333,51 @@ pub fn storage_fault(dump: &mut Vec<u8>) -> &'static str {
             "header bit flip"
         }
     }
+}
+
+fn wr32(b: &mut [u8], at: usize, v: u32) {
+    let be = BIG_ENDIAN.with(|b| b.get());
+    if let Some(x) = b.get_mut(at..at + 4) {
+        x.copy_from_slice(&if be { v.to_be_bytes() } else { v.to_le_bytes() });
+    }
+}
+
+fn field_rot(dump: &mut [u8]) {
+    let len = dump.len() as u32;
+    let nstreams = rd32(dump, 8).unwrap_or(0).min(64);
+    let dir = rd32(dump, 12).unwrap_or(0) as usize;
+    // where: header word | directory field | one of the first 16 words of a stream | a word
+    // of an out-of-line record a stream points at (anywhere, 4-aligned)
+    let at = match ch("storage.field.where", 8) {
+        0 => 4 * (2 + ch("storage.field.hdr", 2)) as usize, // stream count, directory rva
+        1 | 2 if nstreams > 0 => dir + 12 * ch("storage.field.dirent", nstreams) as usize + 4 * ch("storage.field.dirfield", 3) as usize,
+        7 => 4 * range("storage.field.any", 0, (len / 4).saturating_sub(1) as u64) as usize,
+        _ if nstreams > 0 => {
+            let e = dir + 12 * ch("storage.field.stream", nstreams) as usize;
+            let (size, rva) = (rd32(dump, e + 4).unwrap_or(0), rd32(dump, e + 8).unwrap_or(0));
+            let words = (size / 4).clamp(1, 16);
+            rva as usize + 4 * ch("storage.field.word", words) as usize
+        }
+        _ => 8,
+    };
+    let old = rd32(dump, at).unwrap_or(0);
+    let v = match ch("storage.field.value", 14) {
+        0 => 0,
+        1 => 1,
+        2 => 2,
+        3 => 0x7fff_ffff,
+        4 => 0x8000_0000,
+        5 => 0xffff_fff0,
+        6 => u32::MAX,
+        7 => len,
+        8 => len.wrapping_sub(1),
+        9 => len.wrapping_sub(4),
+        10 => old.wrapping_add(1),
+        11 => old.wrapping_sub(1),
+        12 => old.wrapping_mul(2),
+        _ => old ^ 0x0001_0000,
+    };
+    wr32(dump, at, v);
 }
 
 fn rd32(b: &[u8], at: usize) -> Option<u32> {
@@ -1536,6 +1617,45 @@ fn patch_thread_tebs(dump: &mut [u8], tebs: &[u64]) {
 
 /// Point the system-info stream's CSD-version (OS build string) at the string that was added
 /// with the marker prefix "\u{1}CSD\u{1}" (the marker is cut off by pointing past it).
+/// One of the dump's strings (CSD version, first module's name, first thread name) is moved to
+/// the very end of the file, and its length prefix says 0-8 bytes more than the file has: what a
+/// dump cut a few bytes short looks like to the string reader.
+fn tail_string(dump: &mut Vec<u8>) {
+    let be = BIG_ENDIAN.with(|b| b.get());
+    let (Some(count), Some(dir)) = (rd32(dump, 8), rd32(dump, 12)) else { return };
+    let want = [7u32, 4, 24][ch("dump.tail_string.which", 3) as usize];
+    let mut field: Option<usize> = None;
+    for i in 0..count.min(64) as usize {
+        let e = dir as usize + i * 12;
+        let (Some(ty), Some(rva)) = (rd32(dump, e), rd32(dump, e + 8)) else { return };
+        if ty == want {
+            field = Some(match want {
+                7 => rva as usize + 24, // MINIDUMP_SYSTEM_INFO.csd_version_rva
+                4 => rva as usize + 4 + 20, // first MINIDUMP_MODULE.module_name_rva
+                _ => rva as usize + 4 + 4, // first MINIDUMP_THREAD_NAME.thread_name_rva (64-bit)
+            });
+        }
+    }
+    let Some(field) = field else { return };
+    if field + 8 > dump.len() {
+        return;
+    }
+    probe("e4.tail_string");
+    let text: Vec<u8> = "tail string.dll".encode_utf16().flat_map(|u| if be { u.to_be_bytes() } else { u.to_le_bytes() }).collect();
+    let at = dump.len() as u32;
+    let declared = text.len() as u32 + 2 * ch("dump.tail_string.over", 5);
+    dump.extend_from_slice(&if be { declared.to_be_bytes() } else { declared.to_le_bytes() });
+    dump.extend_from_slice(&text);
+    wr32(dump, field, at);
+    if want == 24 {
+        // the high half of the 64-bit RVA
+        wr32(dump, if be { field } else { field + 4 }, 0);
+        if be {
+            wr32(dump, field + 4, at);
+        }
+    }
+}
+
 fn patch_csd_version(dump: &mut [u8], csd: &str) {
     let be = BIG_ENDIAN.with(|b| b.get());
     let enc = |s: &str| -> Vec<u8> { s.encode_utf16().flat_map(|u| if be { u.to_be_bytes() } else { u.to_le_bytes() }).collect() };
